@@ -7,6 +7,7 @@ One line of justification per entry.  `ev` is a walker call event:
   (call, callee, args, result term, resolved callee, line, fn term, generic args, resolved args, dest type)
 """
 import mir
+from fractions import Fraction
 from numabs import Aff, le, lt, const, SIGNED
 
 C = {}
@@ -328,9 +329,56 @@ def split_at_post(num, ev):
 reg(["core::slice::<impl [T]>::split_at", "core::slice::<impl [T]>::split_at_mut"], pre=split_at_pre, post=split_at_post)
 
 
+def multiple_of(num, slice_term, k):
+    """the length of this slice is a multiple of the constant k: it is the first part of a split_at(mid) whose split point is an
+    integer combination with all coefficients divisible by k (len - len % k is k * (len / k))"""
+    t = canon_slice(slice_term)
+    if isinstance(t, tuple) and t and t[0] == "field" and str(t[2]) == "0":
+        ev = producer(num, t[1])
+        if ev is not None and (ev[1].endswith("::split_at") or ev[1].endswith("::split_at_mut")):
+            a = num.aff(ev[2][1])
+            if a is not None:
+                # results of len() calls are the length of their argument: several calls on one slice are one quantity
+                b = Aff({}, a.k)
+                for at, c in a.co.items():
+                    sub = None
+                    if isinstance(at, tuple) and at and at[0] == "ret":
+                        for e2 in getattr(num, "ctx_events", []):
+                            if e2[0] == "call" and e2[3] == at and e2[1].split("::")[-1] == "len" and e2[8]:
+                                sub = slen(num, e2[8][0])
+                    b = b + (sub.scale(c) if sub is not None else Aff({at: c}, 0))
+                a = b
+            if a is not None and k > 0 and all(Fraction(c) % k == 0 for c in a.co.values()) and Fraction(a.k) % k == 0:
+                return True
+    return False
+
+
 def next_post(num, ev):
     k = chunks_k(num, ev[8][0])
     if k is None:
+        pev = producer(num, ev[8][0])
+        if pev is not None and pev[1] == "std::iter::Iterator::enumerate" and pev[8]:
+            # enumerate() over the elements of a slice: the index of an item is below the number of elements
+            src = producer(num, pev[8][0])
+            if src is not None and src[1].split("::")[-1] in ("iter", "iter_mut") and "slice" in src[1] and src[8]:
+                n = slen(num, src[8][0])
+                out = []
+                for payload in (("field", ("variant", ev[3], "Some"), "0"), ("okval", ev[3])):
+                    i = num.aff(("field", payload, "0"))
+                    if i is not None:
+                        out += [le(const(0), i), le(i, n - const(1))]
+                return out
+        if pev is not None and (pev[1].endswith("::chunks") or pev[1].endswith("::chunks_mut")):
+            # chunks(k): every chunk has between 1 and k elements; exactly k when the length is a multiple of k
+            kk = num.aff(pev[2][1])
+            if kk is None:
+                return []
+            out = []
+            exact = kk.is_const() and multiple_of(num, pev[8][0], int(kk.k))
+            for payload in (("field", ("variant", ev[3], "Some"), "0"), ("okval", ev[3])):
+                l = slen(num, payload)
+                out += [le(l, kk), le(kk if exact else const(1), l)]
+            return out
         return []
     out = []
     for payload in (("field", ("variant", ev[3], "Some"), "0"), ("okval", ev[3])):
